@@ -20,8 +20,10 @@ ASSUMPTIONS = ['oracle = explicit enumeration of index pairs (t, t+lag) per '
 
 def shards(tier):
     if tier == 'quick':
-        return [dict(kind='counts', n=6400, parts=16, timeout=900)]
-    return [dict(kind='counts', n=240000, parts=16, timeout=3000)]
+        return [dict(kind='counts', n=6400, parts=16, timeout=900),
+                dict(kind='many', n=2, parts=2, timeout=900, start=900000)]
+    return [dict(kind='counts', n=240000, parts=16, timeout=3000),
+            dict(kind='many', n=24, parts=8, timeout=3000, start=900000)]
 
 
 def setup(ctx):
@@ -53,8 +55,60 @@ def oracle(trajs, lag, sliding, n_states):
     return C
 
 
+def run_many(ctx, rng, idx):
+    """Very many (short) trajectories in one call: 70 000 - 140 000, i.e.
+    beyond any block size an implementation may process them in."""
+    N = int(rng.integers(70000, 140000))
+    if idx % 2:
+        N = int(rng.integers(100001, 100200))
+    nst = int(rng.integers(2, 6))
+    lens = rng.integers(1, 6, size=N)
+    lag = int(rng.integers(1, 3))
+    sliding = bool(rng.random() < 0.7)
+    pad = -np.ones((N, 5), dtype=np.int16)
+    vals = rng.integers(0, nst, size=(N, 5)).astype(np.int16)
+    mask = np.arange(5)[None, :] < lens[:, None]
+    pad[mask] = vals[mask]
+    # the last trajectories carry a state of their own: dropping them empties
+    # whole cells
+    tail = np.arange(N - 40, N)
+    pad[tail, 0] = nst
+    pad[tail, 1] = nst
+    lens = np.maximum(lens, 0)
+    lens[tail] = np.maximum(lens[tail], 2)
+    pad[tail, 2:][np.arange(5)[None, 2:] >= lens[tail][:, None]] = -1
+    ctx.describe({'n_trajectories': N, 'lag': lag, 'sliding': sliding,
+                  'n_states': nst + 1})
+    ns = nst + 1
+    # vectorised oracle over explicit (t, t+lag) index pairs
+    exp = np.zeros((ns, ns), dtype=np.int64)
+    step = 1 if sliding else lag
+    for i in range(0, 5 - lag, step):
+        ok = (i + lag) < lens
+        np.add.at(exp, (pad[ok, i], pad[ok, i + lag]), 1)
+    try:
+        C = tm.assigns_to_counts(pad, lag, max_n_states=ns,
+                                 sliding_window=sliding)
+    except Exception as e:  # noqa
+        ctx.violation('counts.many.raised', '%d trajectories: %s: %s' % (
+            N, type(e).__name__, str(e)[:200]))
+        return
+    ctx.count('matrices_compared')
+    ctx.count('many_trajectory_cases')
+    got = np.asarray(C.toarray() if hasattr(C, 'toarray') else C)
+    if got.shape != exp.shape or not np.array_equal(got, exp):
+        ctx.violation('counts.many.wrong',
+                      '%d trajectories: total %d, expected %d; cells differ '
+                      'at %s' % (N, int(got.sum()), int(exp.sum()),
+                                 np.argwhere(got != exp)[:4].tolist()
+                                 if got.shape == exp.shape else got.shape))
+    ctx.nontriv('many', N, lag, sliding)
+
+
 def run_case(ctx, kind, rng, idx):
     from vf.monitor import Frozen
+    if kind == 'many':
+        return run_many(ctx, rng, idx)
     ntraj = int(rng.integers(1, 9))
     nst = int(rng.integers(1, 8))
     mode = int(rng.integers(0, 4))
@@ -116,8 +170,10 @@ def run_case(ctx, kind, rng, idx):
     def call(name, assigns, expected):
         fz = Frozen(assigns)
         try:
-            C = tm.assigns_to_counts(assigns, lag, max_n_states=n_states,
-                                     sliding_window=sliding)
+            C = tm.assigns_to_counts(
+                assigns, lag, max_n_states=n_states,
+                sliding_window=[sliding, np.bool_(sliding),
+                                int(sliding)][idx % 3])
         except Exception as e:  # noqa
             ctx.violation('counts.%s.raised' % name,
                           '%s presentation raised %s: %s' % (
